@@ -171,7 +171,17 @@ impl<T: Qcow2IoOps> Qcow2Dev<T> {
         buf: &mut [u8],
     ) -> Qcow2Result<usize> {
         match mapping.cluster_offset {
-            Some(off) => self.call_read(off + off_in_cls as u64, buf).await,
+            Some(off) => {
+                let done = self.call_read(off + off_in_cls as u64, buf).await?;
+
+                // the host file may end inside one allocated cluster (new
+                // cluster is zeroed by hole punching, which keeps the file
+                // size), and the part beyond the end of file reads as zero
+                if done < buf.len() {
+                    zero_buf!(&mut buf[done..]);
+                }
+                Ok(buf.len())
+            }
             None => Err("DataFile mapping: None offset None".into()),
         }
     }
